@@ -1123,6 +1123,11 @@ def _make_es_wrapper(orig):
             Us = np.concatenate(ctx["u"], axis=0) if ctx["u"] else np.zeros((0, w.D))
             w.ev("es", w.es_calls, type(self).__name__, int(zs.size), us, z)
             w.probe("es_pop_le8" if zs.size <= 8 else "es_pop_gt8")
+            if zs.size == 0:
+                w.probe("es_no_survivor")
+                if np.size(us) > 0:
+                    w.violate("C18", "es-proposal-without-candidates",
+                              "ES proposed a point although none of its candidates survived the feasibility filter", us=np.asarray(us, float))
             if zs.size > 0:
                 if not (np.all(Us >= lbs) and np.all(Us <= ubs)):
                     w.violate("C18", "es-candidate-outside-box", "ES evaluated the acquisition outside the mesh-rounded box")
